@@ -34,6 +34,11 @@ class _Adj:
         return out
 
 
+class _NodeView(list):
+    def __call__(self, data=False):
+        return list(self)
+
+
 class MG(Native):
     """Checker-side model of networkx.MultiDiGraph restricted to the API the transformations use."""
 
@@ -76,13 +81,43 @@ class MG(Native):
         self._nodes.remove(n)
         self._edges = [e for e in self._edges if e[0] is not n and e[1] is not n]
 
+    def add_nodes_from(self, ns, **kw):
+        for n in list(ns):
+            self.add_node(n)
+
+    def add_edges_from(self, ebunch, **kw):
+        # MultiDiGraph.add_edges_from: (u, v), (u, v, key) or (u, v, key, data); a dict in third position is data
+        for e in list(ebunch):
+            e = tuple(e)
+            key = e[2] if len(e) >= 3 and not isinstance(e[2], dict) else None
+            self.add_edge(e[0], e[1], key)
+
+    def remove_edges_from(self, ebunch):
+        for e in list(ebunch):
+            e = tuple(e)
+            try:
+                self.remove_edge(e[0], e[1], e[2] if len(e) >= 3 else None)
+            except Exception:
+                pass  # networkx ignores edges that are not in the graph
+
+    def has_edge(self, u, v, key=None):
+        return any(a is u and b is v and (key is None or self._keq(k, key)) for (a, b, k) in self._edges)
+
+    def has_successor(self, u, v):
+        return self.has_edge(u, v)
+
+    def has_predecessor(self, u, v):
+        return self.has_edge(v, u)
+
     def remove_nodes_from(self, ns):
         for n in list(ns):
             if n in self._nodes:
                 self.remove_node(n)
 
-    def nodes(self, data=False):
-        return list(self._nodes)
+    @property
+    def nodes(self):
+        # networkx NodeView: iterable, sized, and callable (graph.nodes / graph.nodes())
+        return _NodeView(self._nodes)
 
     def __iter__(self):
         return iter(list(self._nodes))
@@ -161,8 +196,10 @@ class World:
 
     def __init__(self, m, rr):
         self.m, self.rr = m, rr
-        self.C = {n: m.one_class(n, "W") for n in ("Call", "Literal", "Plan", "Registry", "RegistryValue", "Dependency",
+        self.C = {n: m.one_class(n, "W") for n in ("Call", "Literal", "Plan", "Registry", "Dependency",
                                                    "PositionalArg", "KeywordArg", "Node")}
+        from . import roles as _roles
+        self.C["RegistryValue"] = _roles.registry_value(m)
         self.interp = Interp(m, stubs={"fully_qualified_name": Stub("fqn", lambda x: "fn"),
                                        "get_stack_frame": Stub("gsf", lambda *a: "FRESH-FRAME")},
                              ext={"builtins.type": self._type, "builtins.getattr": lambda o, a, d=None: d,
@@ -223,6 +260,9 @@ class World:
 
     def apply(self, stale_nodes, output_node):
         m, rr = self.m, self.rr
+        from . import roles as _roles
+        from .prunerules import prune_role
+        prune_fn = prune_role(m, rr)
         ap = rr.apply
         registry = Obj(self.C["Registry"], {"mapping": self.mapping}, name="registry")
         rec = {}
@@ -233,14 +273,14 @@ class World:
                 continue
             if rr.stale in fs:
                 stubs[c.func.id] = Stub("stale", lambda *a, **k: set(stale_nodes))
-            elif any(f.name == "prune_plan" for f in fs):
+            elif prune_fn in fs:
                 def prune(plan, **kw):
                     rec["required"] = set(kw.get("required_nodes", ()))
                     rec["prune_output"] = kw.get("output_node")
                     rec["graph_at_prune"] = plan.attrs["graph"].copy()
                     return plan
                 stubs[c.func.id] = Stub("prune", prune)
-            elif fs and all(f is not rr.rewrite and f.name != "get_mutable_plan" for f in fs) and \
+            elif fs and all(f is not rr.rewrite and not _roles.is_mutable_plan_func(m, f) for f in fs) and \
                     all(f.name.startswith("_update") and f.name.endswith("totals") for f in fs):
                 stubs[c.func.id] = Stub("totals", lambda *a, **k: None)
         self.interp.stubs = stubs
@@ -273,7 +313,8 @@ class World:
             for nid, st in self.stores.items():
                 if v is st:
                     return f"L[{self.names[nid]}]"
-            if isinstance(v, Obj) and v.cls is not None and v.cls.name == "BarrierType":
+            if isinstance(v, Obj) and v.cls is not None and v.cls.module.name.startswith("uberjob._transformations") and not v.attrs:
+                # the barrier marker: a field-less singleton of a class of the transformation package (today BarrierType)
                 return "B#"
             return "Lit?"
         if isinstance(n, Obj) and n.cls is self.C["Call"]:
